@@ -8,25 +8,25 @@ HERE = os.path.dirname(os.path.dirname(os.path.abspath(__file__)))
 
 CHECKS = {
     # id: (level, technique, level text, level note, design ref)
-    "C01": ("exploration", "offline history checker over stamped start/end events under bytecode-granular yield injection (sys.monitoring)",
+    "C01": ("exploration", "offline history checker over stamped start/end events under bytecode-granular yield injection (sys.monitoring) + deterministic single-preemption enumeration (worker held at every instruction of the engine's bookkeeping) + registry runs checked on the run's effective dependencies",
             "Held on the sampled executions: every call start was preceded by the successful end of all its IR ancestors, under seeded random plans, worker counts, both schedulers and preemption injected between engine bytecodes. Sampling, not exhaustion, is the right level for a schedule-quantified property of a GIL interpreter without a controllable scheduler.",
             "harness lock and sequence counter; IR generator's dependency relation; CPython sys.monitoring INSTRUCTION events", "3/C01"),
-    "C02": ("exploration", "differential against a reference interpreter + per-call argument identity/order monitors",
+    "C02": ("exploration", "differential against a reference interpreter + per-call argument identity/order monitors (several W/scheduler/retry/perturbation configurations, single-preemption enumeration, callables with explicit signatures)",
             "Held on the sampled expression graphs: run's value, every call's positional/keyword arguments (order, names, identity of node-free arguments, exact container types) agree with a direct recursive evaluation of the same IR under several (W, scheduler, perturbation) configurations.",
             "reference interpreter (vmon/ir.py Evaluator) mirrors the documented gather rule; deterministic call functions", "3/C02"),
-    "C03": ("exploration", "from-scratch evaluator oracle after every step of generated store histories",
+    "C03": ("exploration", "from-scratch evaluator oracle after every step of generated store histories (in-memory logical-clock stores incl. DST-zone instants and skewed clocks, faulted and really interrupted runs; file-backed histories incl. symlinked sources)",
             "Held on the sampled histories (runs, faulted runs, source updates, deletions, fresh_time advances in any order): every successful run's output and every non-source store equal the from-scratch values.",
             "logical-clock in-memory stores; only documented registry patterns generated", "3/C03"),
-    "C04": ("exploration", "execution counters in the plan's own functions vs IR ancestor closure, under yield injection",
+    "C04": ("exploration", "execution counters in the plan's own functions vs IR ancestor closure, under yield injection and deterministic single-preemption enumeration",
             "Held on the sampled runs: no call exceeded its allowed attempts; successful runs executed exactly the ancestor closure of the output, once each.",
             "counters under the harness lock; needed set from the IR", "3/C04"),
-    "C05": ("exploration", "declarative out-of-date oracle + need fixpoint predicting exact event multisets; silent re-run monitor",
+    "C05": ("exploration", "declarative out-of-date oracle + need fixpoint predicting exact event multisets; silent re-run monitor; file-backed histories with execution counters (byte-identical rebuilds, symlinked sources)",
             "Held on the sampled store states: call executions, store writes, reads and producer side-writes matched the oracle's exact multiset; an immediately repeated run was silent.",
             "oracle reads 'older than' strictly on logical-clock instants; dedicated unstored producers for dependent sources", "3/C05"),
-    "C06": ("exploration", "history checker + identity monitors on injected exception objects under yield injection",
+    "C06": ("exploration", "history checker + identity monitors on injected exception objects under yield injection; registry runs with failing writers checked on effective dependencies",
             "Held on the sampled failing runs: nothing downstream of a failed call started; run raised CallError whose call failed in this run and whose __cause__ is the recorded exception object; with one worker it was the first failure.",
             "exceptions remembered by identity under the harness lock", "3/C06"),
-    "C07": ("exploration", "logical deadlock detector on kernel thread states (/proc futex parking + ctx-switch counters), thread census, cycle placements",
+    "C07": ("exploration", "logical deadlock detector on kernel thread states (/proc futex parking + ctx-switch counters), bounded-progress livelock criterion for display threads, thread census, cycle placements; fault injection into every user callback (stores, observers, retry, transform_physical, Thread.start)",
             "Held on the sampled runs: no logically quiescent state with run un-returned was ever observed, nothing was left running or alive after return, and every cycle among examined nodes was reported before any call/store event.",
             "Linux /proc/self/task/<tid>/{syscall,status}; untimed futex wait = parked; progress=None in these runs", "3/C07"),
     "C08": ("fault_enumeration", "event-indexed fault injection at EVERY boundary event of each generated case + post-cut oracle + repair-run oracles",
